@@ -148,18 +148,18 @@ def run_case(case):
                     s.obs.unschedule(s.watch)  # removes every handler of the watch, the second one included
                     extra_handlers.clear()
                     try:
-                        s.watch = s.obs.schedule(s.handler, s.given, recursive=bool(cfg.get("recursive", True)), event_filter=flt)
+                        s.watch = fsops.with_instances(lambda: s.obs.schedule(s.handler, s.given, recursive=bool(cfg.get("recursive", True)), event_filter=flt))
                     except OSError:
                         # schedule() may report a directory that vanished during its initial walk to the caller
                         # (an error returned to the application, not a dying thread); the application retries
                         if not case.get("race"):
                             raise
                         _race["plan"] = None
-                        s.watch = s.obs.schedule(s.handler, s.given, recursive=bool(cfg.get("recursive", True)), event_filter=flt)
+                        s.watch = fsops.with_instances(lambda: s.obs.schedule(s.handler, s.given, recursive=bool(cfg.get("recursive", True)), event_filter=flt))
                 elif k == "api_sched2":
                     r2 = fsops.Recorder()
                     extra_handlers.append(r2)
-                    s.obs.schedule(r2.make_handler(), s.given, recursive=bool(cfg.get("recursive", True)), event_filter=flt)
+                    fsops.with_instances(lambda: s.obs.schedule(r2.make_handler(), s.given, recursive=bool(cfg.get("recursive", True)), event_filter=flt))
                 elif k == "rmroot":
                     fsops.exec_op(("rmroot",), s.root, s.out)
                     root_deleted = True
